@@ -6,7 +6,7 @@
 (* mechanism transcription against the same clauses.                                   *)
 EXTENDS Integers, Sequences, FiniteSets, TLC
 
-Probes == {"p1", "p2", "p3", "p4", "p5", "p6", "p7", "p8", "p9", "p10", "q2", "bad", "bad2", "bad3"}
+Probes == {"p1", "p2", "p3", "p4", "p5", "p6", "p7", "p8", "p9", "p10", "p11", "q2", "bad", "bad2", "bad3"}
 \* bad = 'f > zzz' (no such variable), bad2 = 'g > #nope' (no such meta-variable): refused with a selector error;
 \* bad3 = 'f > lam > a' where lam is a lambda: refused with a type error AFTER f, the first function of the path, was tooled
 Valid(p) == p \notin {"bad", "bad2", "bad3"}
@@ -16,7 +16,7 @@ Fns == {"f", "g"}
 \* p10 = Probe('f > a', 'f(!a)'): one probe given the same selector twice, in two spellings (one interned object)
 \* q2 = a plain overlay (no probing(), hence no tooling of its own) tapping 'f > b' on functions that were tooled in place
 \* beforehand: only used in histories whose functions are pre-tooled
-Touches(p) == CASE p = "q2" -> {} [] p \in {"p1", "p2", "p5", "p7", "p8", "p9", "p10", "bad", "bad3"} -> {"f"}
+Touches(p) == CASE p = "q2" -> {} [] p \in {"p1", "p2", "p5", "p7", "p8", "p9", "p10", "p11", "bad", "bad3"} -> {"f"}
                 [] p \in {"p3", "p6"} -> {"f", "g"}
                 [] p \in {"p4", "bad2"} -> {"g"}
 
@@ -36,6 +36,7 @@ EventsOf(p, fn, v) ==
     [] p = "p7" /\ fn = "f" -> << {<<"c", v>>} >>
     [] p = "p8" /\ fn = "f" -> << {<<"c", v>>}, {<<"c", v + 1>>} >>
     [] p = "p9" /\ fn = "f" -> << {<<"ta", v + 1>>} >>
+    [] p = "p11" /\ fn = "f" -> << {<<"v", v>>} >>                    \* 'f > $v:@T': the annotated binding of c, through its tag only
     [] p = "p10" /\ fn = "f" -> << {<<"a", v + 1>>}, {<<"a", v + 1>>} >>        \* once per selector the probe was given
     [] OTHER -> <<>>
 
